@@ -129,6 +129,20 @@ func shSession(r *rng, tokenLen int) *sessionsapi.SessionState {
 	if r.intn(3) != 0 {
 		ss.Nonce = r.bytes(r.intn(40))
 	}
+	// highly COMPRESSIBLE content classes (directory-style group lists, long runs, repeated claims): the encoded
+	// session is many times smaller than its plain form
+	if r.intn(6) == 0 {
+		switch r.intn(3) {
+		case 0:
+			for i := 0; i < 100+r.intn(400); i++ {
+				ss.Groups = append(ss.Groups, fmt.Sprintf("cn=group-%04d,ou=groups,ou=departments,dc=corp,dc=example,dc=com", i))
+			}
+		case 1:
+			ss.IDToken = strings.Repeat(r.pick([]string{"A", "ab", "eyJhbGciOiJSUzI1NiJ9."}), 500+r.intn(4000))
+		default:
+			ss.PreferredUsername = strings.Repeat("x", 2000+r.intn(20000))
+		}
+	}
 	// tokens: split the budget over the three token fields
 	switch r.intn(3) {
 	case 0:
